@@ -17,7 +17,8 @@
 EXTENDS Integers, Sequences, FiniteSets, TLC, Json
 
 CONSTANTS Mode, MaxLen,
-          TrimMode   \* "all": strings.Trim(subject, "()") as the code did; "pair": one matching pair of parentheses
+          TrimMode,  \* "all": strings.Trim(subject, "()") as the code did; "pair": one matching pair of parentheses
+          Wrap       \* the printer re-adds a pair of brackets around a bracketed subject (see ToStr)
 
 Chars == {"a", "b", ":", "#", "@", "(", ")"}
 Str(n) == UNION {[1..k -> Chars] : k \in 0..n}
@@ -56,7 +57,12 @@ FromStr(s) ==
   ELSE T(c1[1], c2[1], c3[1], IdSub(subj))
 
 SetToStr(ss) == IF ss.rel = <<>> THEN ss.ns \o <<":">> \o ss.obj ELSE ss.ns \o <<":">> \o ss.obj \o <<"#">> \o ss.rel
-ToStr(t) == t.ns \o <<":">> \o t.obj \o <<"#">> \o t.rel \o <<"@">> \o (IF t.sub.kind = "id" THEN t.sub.id ELSE SetToStr(t.sub))
+\* Wrap = TRUE (the code since the repair recorded as C18-print-bracketed-subject): a subject whose text starts with "(" and ends
+\* with ")" is printed inside one more pair of brackets, because FromStr removes one pair.  Wrap = FALSE is the printer as it was:
+\* ":#@(:)#" parsed to the subject set ("(", ")", ""), was printed ":#@(:)" and re-parsed to another relationship.
+SubToStr(t) == LET s == IF t.sub.kind = "id" THEN t.sub.id ELSE SetToStr(t.sub)
+               IN IF Wrap /\ Len(s) >= 2 /\ Head(s) = "(" /\ s[Len(s)] = ")" THEN <<"(">> \o s \o <<")">> ELSE s
+ToStr(t) == t.ns \o <<":">> \o t.obj \o <<"#">> \o t.rel \o <<"@">> \o SubToStr(t)
 
 \* the documented domain: fields avoid the separators where they are significant
 InDom(t) ==
